@@ -1,5 +1,6 @@
 pub mod c01;
 pub mod c02;
+pub mod c07;
 pub mod c11;
 pub mod c16;
 
